@@ -511,7 +511,8 @@ class CallMixin:
             if name in ("keys", "values"):
                 return mk("iter", elem=d, taint=recv.taint)
             if name == "copy":
-                return replace(recv, org=frozenset(), elem=d)
+                from .aval import shallow
+                return shallow(recv)
             if name in ("lower", "upper", "strip", "replace", "format", "lstrip", "rstrip", "join", "title", "capitalize"):
                 return mk("str", taint=recv.taint)
             if name in ("split", "rsplit", "splitlines"):
@@ -590,7 +591,8 @@ class CallMixin:
                     upd(replace(recv, nonempty=False))
                 return NONE
             if name == "copy":
-                return replace(recv, org=frozenset())
+                from .aval import shallow
+                return shallow(recv)
             if name in ("index", "count"):
                 return INT
             return mk(tag, elem=el if not el.is_bottom else None)
@@ -634,7 +636,8 @@ class CallMixin:
             if name == "values":
                 return mk("iter", elem=el if not el.is_bottom else None, nonempty=recv.nonempty, taint=tt)
             if name == "copy":
-                return replace(recv, org=frozenset())
+                from .aval import shallow
+                return shallow(recv)
             return ANY
 
         if tag in ("tuple", "range"):
